@@ -171,7 +171,7 @@ def run(prop, tier, seed, t0):
         return plan.fail_build(prop, failed)
     cb = plan.dispatch_variants(bins)
     tasks = []
-    groups = [(1, 2, 3, 8), (64,), (5, 33)] if q else [(1, 2, 3, 8), (64,), (200,), (5, 33), (16, 100), (7, 129), (256,)] * 3
+    groups = [(1, 2, 3, 8), (64,), (5, 33)] if q else [(1, 2, 3, 8), (64,), (200,), (5, 33), (16, 100), (7, 129), (256,)] * 8
     for i, sz in enumerate(groups):
         for c in cb:
             tasks.append(('vlib.props.c14', 'task', prop, seed * 1000 + i, 6 if q else 60, [c], {'sizes': sz}))
